@@ -184,6 +184,24 @@ def r_hash(ctx) -> RuleResult:
             res.inst(fi.fq, short(se), "ok" if ok else "fail")
             if not ok:
                 res.fail(Finding("R-HASH", fi.module.rel, fi.qualname, norm(se), f"set iteration order may reach a result: {why}", line=se.lineno))
+    # iteration over a module-level set / frozenset constant (its order depends on the hash seed for strings)
+    for fi in all_public_closure(ctx):
+        if fi.fq in pipeline:
+            continue
+        for n in own_walk(fi.node):
+            its = []
+            if isinstance(n, ast.For):
+                its = [n.iter]
+            elif isinstance(n, (ast.ListComp, ast.GeneratorExp, ast.DictComp, ast.SetComp)):
+                its = [g.iter for g in n.generators]
+            for it in its:
+                if isinstance(it, ast.Name):
+                    c = ctx.repo.try_const(fi.module, it.id, None) if it.id not in assigned_names(fi.node) and it.id not in params_of(fi.node) else None
+                    if isinstance(c, (set, frozenset)) and any(isinstance(x, str) for x in c):
+                        n_sets += 1
+                        res.inst(fi.fq, f"iteration over the set constant `{it.id}`", "fail")
+                        res.fail(Finding("R-HASH", fi.module.rel, fi.qualname, norm(n if not isinstance(n, ast.For) else n.iter),
+                                         f"`{it.id}` is a set of strings: the order in which its elements are visited (and so the order in which results are built) changes with the hash seed", line=it.lineno))
     # fixture: the interpreter must see a planted list(set(..)) flow
     from ..model import Repo
     fx_src = "def _fx(xs):\n    u = list(set(xs))\n    return ''.join(str(x) for x in u)\n"
